@@ -84,6 +84,8 @@ struct Flight {
     phase: Phase,
     rel_here: u32,
     seq: usize,
+    /// operation during which the packet was first (completely) transmitted
+    first_op: Option<usize>,
 }
 
 #[derive(Clone, Copy, Debug, PartialEq, Eq)]
@@ -489,7 +491,7 @@ impl<'a> Model<'a> {
                         && reqs[q].op >= self.epoch_first_op
                         && reqs[q].packet == reqs[r].packet
                         && matches!(self.v.trace.ops[reqs[q].op].res, OpRes::Cancelled { .. } | OpRes::Err(ErrKind::Transport))
-                        && self.flights.iter().any(|f| f.req == Some(q) && f.epoch == self.epoch)
+                        && self.flights.iter().any(|f| f.req == Some(q) && f.epoch == self.epoch && f.first_op == Some(op))
                 });
                 if let Some(q) = donor {
                     if let Some(f) = self.flights.iter_mut().find(|f| f.req == Some(q)) {
@@ -1093,6 +1095,7 @@ impl<'a> Model<'a> {
                     phase: Phase::AwaitAck,
                     rel_here: 0,
                     seq,
+                    first_op: self.cur_op,
                 });
                 self.quota_check(tr, pid);
             }
